@@ -345,8 +345,16 @@ def translate_block(artefact, body, env, mut_calls, result=None, loops=None):
         s = re.sub(r"#\[[^\]]*\]\s*", "", s).strip()
         try:
             m = re.match(r"^(?:let\s+(?:mut\s+)?|(?:const\s+)?(?:uint32_t|uint8_t|uint64_t|size_t)\s+\*?)(\w+)(?:\s*:\s*[^=]+)?\s*=\s*(.+)$", s, re.S)
-            if m:
+            if m and not re.match(r"^\[0;\s*\d+\]$", m.group(2).strip()):
                 lines.append(f"let {m.group(1)} := {emit(parse_expr(m.group(2)), env)}")
+                continue
+            m = re.match(r"^let\s+(?:mut\s+)?(\w+)\s*=\s*\[0;\s*(\d+)\]$", s)
+            if m:  # Rust array repeat expression
+                lines.append(f"let {m.group(1)} : Vector UInt32 {m.group(2)} := Vector.replicate {m.group(2)} 0")
+                continue
+            m = re.match(r"^\*(\w+)\s*=\s*(\w+)$", s)
+            if m:  # `*m = permuted`
+                lines.append(f"let {m.group(1)} := {m.group(2)}")
                 continue
             m = re.match(r"^(?:uint32_t|uint8_t)\s+(\w+)\[(\d+)\]$", s)
             if m:  # C array declaration without initialiser
@@ -585,6 +593,50 @@ def gen_rs_portable():
     return "\n".join(o) + "\n"
 
 
+def gen_ref_compress():
+    A = "G2-ref-compress"
+    F = "reference_impl/reference_impl.rs"
+    o = ["/- GENERATED by gen/extract.py from /repo/reference_impl/reference_impl.rs -- do not edit -/",
+         "import B3.Prim", "import B3.Gen.Consts", "namespace B3.Gen.Ref", ""]
+    env = Env()
+    params, body = find_fn(A, F, r"fn\s+g\s*\(")
+    names = re.findall(r"(\w+)\s*:", params)
+    if names != ["state", "a", "b", "c", "d", "mx", "my"]:
+        raise TranslationBroken(A, f"g: unexpected parameters {names}")
+    lines, final = translate_block(A, body, env, {})
+    o.append(lean_def("g", "(state : St) (a b c d : Fin 16) (mx my : UInt32)", "St", lines, final or "state"))
+    params, body = find_fn(A, F, r"fn\s+round\s*\(")
+    names = re.findall(r"(\w+)\s*:", params)
+    if names != ["state", "m"]:
+        raise TranslationBroken(A, f"round: unexpected parameters {names}")
+    lines, final = translate_block(A, body, env, {"g": ("g", 0)})
+    o.append(lean_def("round", "(state m : St)", "St", lines, final or "state"))
+    params, body = find_fn(A, F, r"fn\s+permute\s*\(")
+    names = re.findall(r"(\w+)\s*:", params)
+    if names != ["m"]:
+        raise TranslationBroken(A, f"permute: unexpected parameters {names}")
+    lines, final = translate_block(A, unroll_for_loops(body), env, {})
+    o.append(lean_def("permute", "(m : St)", "St", lines, final or "m"))
+    params, body = find_fn(A, F, r"fn\s+compress\s*\(")
+    names = re.findall(r"(\w+)\s*:", params)
+    if names != ["chaining_value", "block_words", "counter", "block_len", "flags"]:
+        raise TranslationBroken(A, f"compress: unexpected parameters {names}")
+    # the function is emitted in two definitions, split where its `for` loop starts: the straight-line
+    # part (`compress_rounds`, returns `state`) and the unrolled loop applied to its result
+    mfor = re.search(r"for\s+\w+\s+in\s+0\.\.8\s*\{", body)
+    if not mfor:
+        raise TranslationBroken(A, "compress: the feed-forward `for i in 0..8` loop was not found")
+    pre, rest = body[:mfor.start()], body[mfor.start():]
+    CPARAMS = "(chaining_value : CV) (block_words : St) (counter : UInt64) (block_len flags : UInt32)"
+    lines, final = translate_block(A, pre + "\nstate", env, {"round": ("round", 0), "permute": ("permute", 0)})
+    o.append(lean_def("compress_rounds", CPARAMS, "St", lines, final))
+    lines, final = translate_block(A, unroll_for_loops(rest), env, {})
+    o.append(lean_def("compress", CPARAMS, "St",
+                      ["let state := compress_rounds chaining_value block_words counter block_len flags"] + lines, final))
+    o.append("end B3.Gen.Ref")
+    return "\n".join(o) + "\n"
+
+
 # ------------------------------------------------------------------------------------------------
 # G3: arithmetic helpers, translated into checked arithmetic in the monad `R`
 
@@ -768,11 +820,132 @@ def gen_arith():
 
 
 # ------------------------------------------------------------------------------------------------
+# G5: published test vectors
+
+
+def gen_vectors():
+    A = "G5-vectors"
+    rel = "test_vectors/test_vectors.json"
+    text = src(rel)
+    record_span(A, rel, 0, len(text))
+    try:
+        d = json.loads(text)
+        key = d["key"].encode()
+        ctx = d["context_string"].encode()
+        cases = d["cases"]
+    except Exception as ex:
+        raise TranslationBroken(A, f"cannot parse {rel}: {ex}")
+
+    def lst(b):
+        return "[" + ", ".join(str(x) for x in b) + "]"
+    o = ["/- GENERATED by gen/extract.py from /repo/test_vectors/test_vectors.json -- do not edit -/",
+         "namespace B3.Gen.Vectors", "",
+         f"def key : List UInt8 := {lst(key)}", f"def context : List UInt8 := {lst(ctx)}",
+         f"def inputLens : List Nat := {[c['input_len'] for c in cases]}", ""]
+    small = [c for c in cases if c["input_len"] <= 1]
+    for c in small:
+        n = c["input_len"]
+        for f in ("hash", "keyed_hash", "derive_key"):
+            try:
+                b = bytes.fromhex(c[f])
+            except Exception as ex:
+                raise TranslationBroken(A, f"case {n} field {f}: {ex}")
+            o.append(f"def case{n}_{f} : List UInt8 := {lst(b)}")
+    o.append("")
+    o.append("end B3.Gen.Vectors")
+    return "\n".join(o) + "\n"
+
+
+# ------------------------------------------------------------------------------------------------
+# G4: structural listings (Debug fields, Zeroize fields vs struct fields, SIMD degree tables)
+
+
+def struct_fields(artefact, rel, name):
+    text = src(rel)
+    m = re.search(rf"(?:pub\s+)?struct\s+{name}\s*\{{", text)
+    if not m:
+        raise TranslationBroken(artefact, f"struct {name} not found in {rel}")
+    b0 = m.end() - 1
+    b1 = match_brace(text, b0)
+    record_span(artefact, rel, m.start(), b1)
+    body = strip_comments(text[b0 + 1:b1 - 1])
+    return re.findall(r"^\s*(?:pub\s+)?(\w+)\s*:", body, flags=re.M)
+
+
+def impl_body(artefact, rel, header_re):
+    text = src(rel)
+    m = re.search(header_re, text)
+    if not m:
+        raise TranslationBroken(artefact, f"/{header_re}/ not found in {rel}")
+    b0 = text.index("{", m.end() - 1)
+    b1 = match_brace(text, b0)
+    record_span(artefact, rel, m.start(), b1)
+    return strip_comments(text[b0 + 1:b1 - 1])
+
+
+def lean_strs(xs):
+    return "[" + ", ".join('"' + x + '"' for x in xs) + "]"
+
+
+def gen_listings():
+    A = "G4-listings"
+    o = ["/- GENERATED by gen/extract.py from /repo/src/lib.rs, src/platform.rs, c/blake3_dispatch.c, c/blake3_impl.h -- do not edit -/",
+         "namespace B3.Gen.Listings", ""]
+    L = "src/lib.rs"
+    # Debug impls: the names passed to .field(...)
+    for ty in ["ChunkState", "Hasher", "OutputReader"]:
+        body = impl_body(A, L, rf"impl\s+fmt::Debug\s+for\s+{ty}\b")
+        fields = re.findall(r'\.field\(\s*"(\w+)"\s*,\s*([^)]*\)?)\s*\)', body)
+        if not fields:
+            raise TranslationBroken(A, f"Debug impl of {ty}: no .field(...) calls found")
+        o.append(f"def debugFields_{ty} : List String := {lean_strs([f[0] for f in fields])}")
+        o.append(f"def debugExprs_{ty} : List String := {lean_strs([re.sub(r'[^A-Za-z0-9_.()&]', '', f[1]) for f in fields])}")
+    # struct fields and the fields zeroized by each Zeroize impl
+    for ty in ["Output", "ChunkState", "Hasher", "OutputReader"]:
+        fs = struct_fields(A, L, ty)
+        body = impl_body(A, L, rf"impl\s+Zeroize\s+for\s+{ty}\b")
+        z = re.findall(r"^\s*(\w+)\.zeroize\(\)", body, flags=re.M)
+        skipped = re.findall(r"(\w+)\s*:\s*_", body)
+        o.append(f"def structFields_{ty} : List String := {lean_strs(fs)}")
+        o.append(f"def zeroized_{ty} : List String := {lean_strs(z)}")
+        o.append(f"def zeroizeSkipped_{ty} : List String := {lean_strs(skipped)}")
+    body = impl_body(A, L, r"impl\s+Zeroize\s+for\s+Hash\b")
+    zh = re.findall(r"^\s*(\w+)\.zeroize\(\)", body, flags=re.M)
+    o.append(f"def zeroized_Hash : List String := {lean_strs(zh)}")
+    # Platform::simd_degree arms
+    params, body = find_fn(A, "src/platform.rs", r"pub\s+fn\s+simd_degree\s*\(")
+    arms = re.findall(r"Platform::(\w+)\s*=>\s*(\d+)", body)
+    if not arms:
+        raise TranslationBroken(A, "simd_degree: no match arms found")
+    o.append("def simdDegrees : List (String × Nat) := [" + ", ".join(f'("{a}", {n})' for a, n in arms) + "]")
+    text = strip_comments(src("src/platform.rs"))
+    ms = [int(x) for x in re.findall(r"pub\s+const\s+MAX_SIMD_DEGREE\s*:\s*usize\s*=\s*(\d+)", text)]
+    ms2 = [int(x) for x in re.findall(r"pub\s+const\s+MAX_SIMD_DEGREE_OR_2\s*:\s*usize\s*=\s*(\d+)", text)]
+    if not ms or not ms2:
+        raise TranslationBroken(A, "MAX_SIMD_DEGREE tables not found in src/platform.rs")
+    o.append(f"def maxSimdDegrees : List Nat := {ms}")
+    o.append(f"def maxSimdDegreesOr2 : List Nat := {ms2}")
+    # C: blake3_simd_degree return values and MAX_SIMD_DEGREE defines
+    params, body = find_fn(A, "c/blake3_dispatch.c", r"size_t\s+blake3_simd_degree\s*\(")
+    cdeg = [int(x) for x in re.findall(r"return\s+(\d+)\s*;", body)]
+    o.append(f"def cSimdDegrees : List Nat := {cdeg}")
+    ctext = strip_comments(src("c/blake3_impl.h"))
+    cmax = [int(x) for x in re.findall(r"#define\s+MAX_SIMD_DEGREE\s+(\d+)", ctext)]
+    o.append(f"def cMaxSimdDegrees : List Nat := {cmax}")
+    o.append("")
+    o.append("end B3.Gen.Listings")
+    return "\n".join(o) + "\n"
+
+
+# ------------------------------------------------------------------------------------------------
 
 ARTEFACTS = [
     ("Consts.lean", "G1-consts", gen_consts),
     ("RsPortable.lean", "G2-rs-portable", gen_rs_portable),
     ("Arith.lean", "G3-arith", gen_arith),
+    ("RefCompress.lean", "G2-ref-compress", gen_ref_compress),
+    ("Vectors.lean", "G5-vectors", gen_vectors),
+    ("Listings.lean", "G4-listings", gen_listings),
 ]
 
 
